@@ -9,7 +9,7 @@ from concurrent.futures import ThreadPoolExecutor
 from .names import addr_num, denom_num, tok_num
 
 ROOT = os.path.dirname(os.path.dirname(os.path.dirname(os.path.abspath(__file__))))
-COQ = os.path.join(ROOT, "coq")
+COQ = os.environ.get("FM_COQ_DIR") or os.path.join(ROOT, "coq")   # FM_COQ_DIR: tools/modelmut.py evaluates against a mutated copy of the model
 
 
 def n(x):
